@@ -21,19 +21,20 @@
 namespace {
 
 int g_live = 0;        // payload objects alive and holding a value
+int g_objects = 0;     // payload objects constructed and not yet destroyed, moved-from ones included
 int g_order = 0;       // comparator mode of the ordered queue
 
 struct Payload
 {
 	int key, arg;
 	bool valid;
-	Payload() : key(-1), arg(-1), valid(false) {}
-	Payload(int k, int a) : key(k), arg(a), valid(true) { ++g_live; }
-	Payload(const Payload & o) : key(o.key), arg(o.arg), valid(o.valid) { if(valid) ++g_live; }
-	Payload(Payload && o) noexcept : key(o.key), arg(o.arg), valid(o.valid) { o.valid = false; o.key = -2; o.arg = -2; }
+	Payload() : key(-1), arg(-1), valid(false) { ++g_objects; }
+	Payload(int k, int a) : key(k), arg(a), valid(true) { ++g_live; ++g_objects; }
+	Payload(const Payload & o) : key(o.key), arg(o.arg), valid(o.valid) { if(valid) ++g_live; ++g_objects; }
+	Payload(Payload && o) noexcept : key(o.key), arg(o.arg), valid(o.valid) { o.valid = false; o.key = -2; o.arg = -2; ++g_objects; }
 	Payload & operator = (const Payload & o) { if(this != &o) { if(valid) --g_live; key = o.key; arg = o.arg; valid = o.valid; if(valid) ++g_live; } return *this; }
 	Payload & operator = (Payload && o) noexcept { if(this != &o) { if(valid) --g_live; key = o.key; arg = o.arg; valid = o.valid; o.valid = false; o.key = -2; o.arg = -2; } return *this; }
-	~Payload() { if(valid) --g_live; valid = false; }
+	~Payload() { if(valid) --g_live; valid = false; --g_objects; }
 };
 
 #if VH_PROTO == 0
@@ -168,8 +169,24 @@ struct RunnerT : Runner
 		}
 		else if(op == "clear") { q->clearEvents(); }
 		else if(op == "emptyq") { std::printf("ret %d\n", (int)q->emptyQueue()); }
+		else if(op == "waitfor0") {
+			// C11's second observer: a waitFor that times out at once.  SingleThreading's ConditionVariable::wait_for
+			// returns true without looking at anything (no other thread can exist), so on that variant the answer is
+			// taken from the public half of the predicate (no DisableQueueNotify exists in this domain)
+#if VH_POLICY == 1
+			std::printf("ret %d\n", (int)! q->emptyQueue());
+#else
+			std::printf("ret %d\n", (int)q->waitFor(std::chrono::nanoseconds(0)));
+#endif
+		}
 		else if(op == "ledger") { std::printf("live %d\n", g_live); }
-		else if(op == "final") { regs.clear(); q.reset(); std::printf("live %d\n", g_live); }
+		else if(op == "final") {
+			regs.clear(); q.reset(); std::printf("live %d\n", g_live);
+			// every payload object the queue ever held — moved-from ones too — has been destroyed: what is left are the
+			// events this harness took out and still holds
+			const int left = g_objects - (int)taken.size();
+			if(left != 0) std::printf("live-objects-not-destroyed %d\n", left);
+		}
 		else { std::printf("harness-error unknown op %s\n", op.c_str()); std::fflush(stdout); std::abort(); }
 	}
 };
